@@ -171,6 +171,7 @@ fn raw_state(
     pending: Option<usize>,
     start: usize,
     count: usize,
+    slack: usize,
 ) -> Option<(Inflights, Model)> {
     // II (shape part)
     if blen > cap || count > cap || (cap > 0 && start >= cap) || (cap == 0 && start != 0) {
@@ -198,8 +199,10 @@ fn raw_state(
         }
         j += 1;
     }
+    // `slack`: the allocation may be larger than `cap` (Vec::reserve over-allocates when
+    // set_cap grows an allocated window; II only requires capacity >= cap)
     let mut buf: Vec<u64> = if allocated {
-        Vec::with_capacity(cap)
+        Vec::with_capacity(cap + slack)
     } else {
         Vec::new()
     };
@@ -266,6 +269,11 @@ fn check_raw(real: &Inflights, m: &Model) {
 /// with the given cap / buffer length / allocation / pending shrink: all ring rotations
 /// (`start`) and fill levels (`count`) are walked concretely, contents are symbolic.
 pub fn step(s: &mut Src, cap: usize, blen: usize, allocated: bool, pending: Option<usize>, kmax: usize) {
+    step_slack(s, cap, blen, allocated, pending, kmax, 0)
+}
+
+/// `step` from states whose buffer allocation exceeds `cap` by `slack` slots.
+pub fn step_slack(s: &mut Src, cap: usize, blen: usize, allocated: bool, pending: Option<usize>, kmax: usize, slack: usize) {
     let mut states = 0usize;
     // reachability witnesses: `exp_*` are concrete (does the shape admit the event at all),
     // `saw_*` symbolic; the cover is `!exp || saw` so that it is satisfiable for every shape.
@@ -278,7 +286,7 @@ pub fn step(s: &mut Src, cap: usize, blen: usize, allocated: bool, pending: Opti
         while count <= cap {
             let mut kind = 0;
             while kind < 5 + kmax + 1 {
-                if let Some((mut real, mut m)) = raw_state(s, cap, blen, allocated, pending, start, count) {
+                if let Some((mut real, mut m)) = raw_state(s, cap, blen, allocated, pending, start, count, slack) {
                     states += 1;
                     if kind < 5 {
                         apply_op(kind as u64, s, &mut real, &mut m);
